@@ -93,6 +93,10 @@ RULES = [
     ('R4b', 'a |= &b; -> a.or_assign_(&b);  a |= b; -> a.or_assign_(&b); (the by-value operand is consumed: same resulting set)', re.compile(r'(?m)^([ \t]*)(\w+) \|= &?([A-Za-z_]\w*);'), r'\1\2.or_assign_(&\3);'),
     ('R4c', '&a | &b -> bitor_(&a, &b)', re.compile(r'&(\w+) \| &(\w+)'), r'bitor_(&\1, &\2)'),
     ('R4d', '&a & &b -> bitand_(&a, &b)', re.compile(r'&(\w+) & &(\w+)'), r'bitand_(&\1, &\2)'),
+    ('R6i', '`return self.f(args);` -> `let ret__ = self.f(args); return ret__;` (definitional; gives the call a name)',
+     re.compile(r'(?m)^([ \t]*)return (self\.\w+\([^;]*\));'), r'\1let ret__ = \2;\n\1return ret__;'),
+    ('R7g', 'X.as_ref().map_or_else(Vec::new, |Y| Y.roots.iter().collect()) -> meta_roots_(&X) (the roots recorded in the metadata, or none)',
+     re.compile(r'(\w+)\s*\.as_ref\(\)\s*\.map_or_else\(Vec::new, \|(\w+)\| \2\.roots\.iter\(\)\.collect\(\)\)'), r'meta_roots_(&\1)'),
     ('R7e', '(m as f64 * 2.0 / 3.0).floor() as usize -> two_thirds_(m) (floating point: an uninterpreted usize)',
      re.compile(r'\(\s*(\w+) as f64 \* 2\.0 / 3\.0\)\.floor\(\) as usize'), r'two_thirds_(\1)'),
     ('R12', 'ghost-state threading for the id generator: X.concurrent_node_ids.next() -> X.concurrent_node_ids.next_g_(tmp_nodes) (ids returned before are recorded in the TmpNodes in scope)',
